@@ -243,6 +243,17 @@ class C04:
             trig = [g for g, _ in triggers(s)]
             src = [x for x in walk(("and", tuple(trig))) if x[0] == "cmp" and x[1] in ("is", "isnot") and x[3] == NONE and x[2] in key("source")]
             tgt = [x for x in walk(("and", tuple(trig))) if x[0] == "cmp" and x[1] in ("is", "isnot") and x[3] == NONE and x[2] in key("target")]
+            # the way the two sides are read must fit the mode: a before-mode hook receives the raw input (the keyword arguments as
+            # a dict), an after-mode hook the model instance
+            forms = {("attr" if x[2][0] == "attr" else "key") for x in src + tgt}
+            if mmode == "before" and "attr" in forms:
+                ctx.bad("R04.2", ci.module.relpath, "Match._validate_match", "mode='before' reading self.source / self.target",
+                        "the validator runs in before mode, where its argument is the raw input (a dict of the keyword arguments), but reads "
+                        ".source / .target as attributes: AttributeError for every Match(...) construction", s.node.lineno)
+            elif mmode == "after" and "key" in forms:
+                ctx.bad("R04.2", ci.module.relpath, "Match._validate_match", "mode='after' reading the instance like a dict",
+                        "the validator runs in after mode, where its argument is the Match instance, but reads source / target with "
+                        ".get(...) / [...]: the instance is not a mapping", s.node.lineno)
             if not src or not tgt:
                 # maybe written with truthiness / subscripts
                 self._match_fallback(ci, s, p, trig)
